@@ -238,7 +238,9 @@ obligation and then searches for a failing input.  Which definition mirrors what
   `kPInput`…`kSurface`, `fixSurface`;
 * `c19SExprParseConsts`, `c19SExprNumberConsts`, `c19SExprStringConsts`, `c19SExprSymbolConsts`: `sxLoop`,
   `Tok` and the harness tokenizer;
-* `c19TaskSelectors`: which profile column is the input of each task (oracle's notion of an input). -/
+* `c19TaskSelectors`: which profile column is the input of each task (oracle's notion of an input);
+* `c19SpaceCodes`: `isPySpace` (hence `strip`, `rstrip`, `validate .parser`, `wire`) — the code points with
+  `str.isspace()` in the running interpreter, i.e. what `datum.strip()` / `datum.rstrip()` remove. -/
 theorem c19_pins :
     c19InitConsts =
       ["ace", "(0, 9, 14)", "--tsdb-notes", "(0, 9, 24)", "--tsdb-stdout", "--report-labels", "--itsdb-forest", "-1"]
@@ -325,8 +327,12 @@ theorem c19_pins :
       ["^$/32", "^$/32", "^$/32", "NOTE: tsdb parse: /32", "\\(:results \\./32"]
     ∧
     c19TaskSelectors =
-      ["generate:(result, mrs)", "parse:(item, i-input)", "transfer:(result, mrs)"] := by
-  refine ⟨?_, ?_, ?_, ?_, ?_, ?_, ?_, ?_, ?_, ?_, ?_, ?_, ?_, ?_, ?_, ?_, ?_, ?_, ?_, ?_, ?_, ?_, ?_, ?_, ?_, ?_, ?_, ?_, ?_⟩ <;> rfl
+      ["generate:(result, mrs)", "parse:(item, i-input)", "transfer:(result, mrs)"]
+    ∧
+    c19SpaceCodes =
+      [9, 10, 11, 12, 13, 28, 29, 30, 31, 32, 133, 160, 5760, 8192, 8193, 8194, 8195, 8196, 8197, 8198, 8199, 8200,
+       8201, 8202, 8232, 8233, 8239, 8287, 12288] := by
+  refine ⟨?_, ?_, ?_, ?_, ?_, ?_, ?_, ?_, ?_, ?_, ?_, ?_, ?_, ?_, ?_, ?_, ?_, ?_, ?_, ?_, ?_, ?_, ?_, ?_, ?_, ?_, ?_, ?_, ?_, ?_⟩ <;> rfl
 
 /-! ## the hypothesis is needed, and the model is not vacuous (concrete sessions, checked by evaluation) -/
 
